@@ -8,6 +8,7 @@ import (
 	"os"
 	"os/exec"
 	"path/filepath"
+	"reflect"
 	"strconv"
 	"strings"
 
@@ -239,6 +240,34 @@ func runC17(c *Ctx) {
 			c.R.Sample(map[string]interface{}{"image": t.name + ".cim", "sha256": digest, "case": 0, "desc": recs[0].Msg, "record": recs[0].Raw, "go_record": hex.EncodeToString(goRecord(t.cases[0]))})
 		}
 	}
+	// the two tables are independent values: a host that appends its own record to one of
+	// them (append(zex.DocCases, own)) must not change the other - checked last, on this
+	// process's copy, by appending to each and comparing both again with what they were
+	{
+		docBefore := append([]zex.Case(nil), zex.DocCases...)
+		allBefore := append([]zex.Case(nil), zex.AllCases...)
+		own := zex.Case{Desc: "host's own case"}
+		_ = append(zex.DocCases, own)
+		_ = append(zex.AllCases, own)
+		same := func(a, b []zex.Case) bool {
+			if len(a) != len(b) {
+				return false
+			}
+			for i := range a {
+				if !reflect.DeepEqual(a[i], b[i]) {
+					return false
+				}
+			}
+			return true
+		}
+		evals += 2
+		if !same(docBefore, zex.DocCases) || !same(allBefore, zex.AllCases) {
+			c.R.Violation("C17/tables-share-storage", map[string]interface{}{
+				"what":             "appending a record to one exported table (append(zex.DocCases, own) / append(zex.AllCases, own)) changed a canonical case: the tables have spare capacity that is another table's storage",
+				"cap_len_DocCases": []int{cap(zex.DocCases), len(zex.DocCases)}, "cap_len_AllCases": []int{cap(zex.AllCases), len(zex.AllCases)}})
+		}
+	}
+
 	// build configurations: the tables are Go data that build constraints can swap.  The
 	// check script also builds this monitor with -race (build tag "race", the
 	// configuration of `go test -race`) and the comparison is repeated in that binary.
